@@ -34,6 +34,8 @@ def gen_case(rng, pi_method=None, size="small", **kw):
         kw["roles"] = ["reporting"] * 8 + ["blocklisted", "zero-baseline", "strange-low", "strange-high"]
         kw["all_reported"] = True
     all_reported = kw.pop("all_reported", False)
+    if district and "many_districts" not in kw and rng.random() < 0.3:
+        kw["many_districts"] = True
     e = E.gen_election(rng, size=size, district=district, **kw)
     if all_reported:
         # excluded units may sit below the threshold; reporting units must not
@@ -239,6 +241,11 @@ def check_split(run, case, tables, mout, ids, props):
         ic, ir, ires = iv[u]
         if mc != ic or mr != ir:
             what = "category / reporting flag: model vs implementation"
+            if "C01" in props and (mr != ir or (mc == "expected") != (ic == "expected")):
+                run.violation("a unit is counted as modelled-and-reporting (or not) against the rules: the reporting column of its groups "
+                              "is not the number of modelled units at or above the threshold", input=L, impl={u: [ic, ir]},
+                              expected=[mc, mr], predicate="counted_conserved (reporting column)", signature="C01:reporting",
+                              replay_case=case_json(case))
             if "C09" in props:
                 run.violation("unit category does not follow the eligibility rules", input=L,
                               impl={u: [ic, ir]}, expected=[mc, mr], predicate="category_rules", signature="C09:category",
@@ -315,6 +322,7 @@ def level_ops(case, tables, iv_unit):
             rows.append((r, cat, key))
         order = sorted(keyset)
         krank = {k: i for i, k in enumerate(order)}
+        open_keys = {key for r, cat, key in rows if key is not None and cat == "expected" and int(r["reporting"]) == 0}
         for est in case["estimands"]:
             for a in case["alphas"]:
                 rep, nonrep, unexp = [], [], []
@@ -331,7 +339,7 @@ def level_ops(case, tables, iv_unit):
                     else:
                         unexp.append(rec)
                 ops.append({"op": "agg.level", "cls": cls, "rep": rep, "nonrep": nonrep, "unexp": unexp})
-                meta.append({"level": level, "agg_list": al, "estimand": est, "alpha": a, "order": order, "cls": cls})
+                meta.append({"level": level, "agg_list": al, "estimand": est, "alpha": a, "order": order, "cls": cls, "open_keys": open_keys})
     return ops, meta
 
 
@@ -400,6 +408,17 @@ def check_levels(run, case, tables, outs, meta, props):
                                           input=L, where=tag, group=list(key), impl=[lo, hi], expected=want[1:],
                                           predicate="np_bounds_are_sums", signature="C02:np-bounds",
                                           replay_case=case_json(case))
+                # interval columns sit on the row of their own group: a group without any nonreporting unit has nothing left to
+                # predict, so both bounds are its counted votes - whatever the estimator (a shifted or dropped row shows here)
+                if key not in m.get("open_keys", set()) or any(v is None or (isinstance(v, float) and math.isnan(v)) for v in (lo, hi)):
+                    closed = key not in m.get("open_keys", set())
+                    if any(v is None or (isinstance(v, float) and math.isnan(v)) for v in (lo, hi)) or (closed and not (lo == res == hi)):
+                        for pr, sig in (("C02", "C02:row-align"), ("C03", "C03:zero-width")):
+                            if pr in props:
+                                run.violation("aggregate bounds are missing, or a group with no nonreporting unit does not have both bounds at "
+                                              "its counted votes (interval columns are not on the row of their own group)", input=L,
+                                              where=tag, group=list(key), impl=[lo, res, hi], predicate="interval_rows_aligned / "
+                                              "no_nonreporting_zero_width", signature=sig, replay_case=case_json(case))
                 if "C03" in props:
                     vals = [pred, res, lo, hi]
                     if not all(v is not None and math.isfinite(v) and float(v) == int(v) for v in vals):
